@@ -1443,7 +1443,9 @@ Section Main.
       assert (La : length all = (11 * (3 * k))%nat) by (unfold all; rewrite flat_bits11_length, Li; reflexivity).
       destruct (bits_bytes_of_bits (4 * k) (firstn (8 * (4 * k)) all)) as (Bb & Bok).
       { rewrite firstn_length. lia. }
-      destruct (bits_eqb _ _) eqn:C in E; [|discriminate]. injection E as <-.
+      set (e0 := bytes_of_bits (4 * k) (firstn (8 * (4 * k)) all)) in *.
+      destruct (bits_eqb _ _) eqn:C in E; [|discriminate].
+      assert (Ee : e0 = e) by congruence. clear E. subst e.
       apply bits_eqb_eq in C.
       split; [apply legal_words_k; eauto|]. split; [exact Bok|].
       exists idxs. split; [exact AI|]. fold all. rewrite Bb, <- C. symmetry. apply firstn_skipn.
@@ -1462,5 +1464,38 @@ Section Main.
       rewrite skipn_app, Lb, Nat.sub_diag, skipn_O. rewrite skipn_all2 by lia. cbn [app].
       rewrite <- Le, bytes_of_bits_bits by exact Ok_.
       replace (bits_eqb _ _) with true by (symmetry; apply bits_eqb_eq; reflexivity). reflexivity.
+  Qed.
+  (* ---------------------------------------------------------------- corollaries used by Properties/C13.v *)
+
+  Theorem new_mnemonic_valid e : legal_len e -> bytes_ok e ->
+    exists ws, new_mnemonic H e = Ok (join_sp ws) /\ valid_sentence H ws e /\ fields (join_sp ws) = ws.
+  Proof.
+    intros LL He. destruct (spec_encode_valid e LL He) as (ws & Es & V & P).
+    exists ws. rewrite new_mnemonic_is_spec by exact He. split; [exact Es|]. split; [exact V|].
+    apply fields_join. exact P.
+  Qed.
+
+  Theorem roundtrip_byte_array e : legal_len e -> bytes_ok e ->
+    exists m, new_mnemonic H e = Ok m /\ mnemonic_to_byte_array H true m = Ok e /\
+              is_mnemonic_valid m = true.
+  Proof.
+    intros LL He. destruct (new_mnemonic_valid e LL He) as (ws & En & V & F).
+    exists (join_sp ws). split; [exact En|]. split.
+    - apply mtba_raw_accept_iff. rewrite F. exact V.
+    - apply is_mnemonic_valid_spec. rewrite F. destruct V as (Lw & _ & idxs & Fn & _). split; [exact Lw|].
+      clear - Fn. induction Fn as [|w i ws idxs Hw Hr IH]; constructor; auto. eapply nth_error_In. exact Hw.
+  Qed.
+
+  Theorem new_mnemonic_rejects e : ~ legal_len e -> new_mnemonic H e = Err ErrEntropyLengthInvalid.
+  Proof.
+    intros N. unfold new_mnemonic. replace (valid_bitsize (len e * 8)) with false; [reflexivity|].
+    symmetry. destruct (valid_bitsize (len e * 8)) eqn:V; auto. apply valid_bitsize_iff in V. contradiction.
+  Qed.
+
+  (* a sentence has at most one entropy *)
+  Theorem valid_sentence_functional ws e1 e2 :
+    valid_sentence H ws e1 -> valid_sentence H ws e2 -> e1 = e2.
+  Proof.
+    intros V1 V2. apply spec_decode_iff in V1. apply spec_decode_iff in V2. congruence.
   Qed.
 End Main.
